@@ -25,6 +25,8 @@ struct nng_http_client {
 	nni_list           aios;
 	nni_mtx            mtx;
 	bool               closed;
+	bool               dialing; // c->aio submitted, its callback not yet run
+	bool               aborted; // the dial in flight was for a cancelled aio
 	nni_aio            aio;
 	char               host[260];
 	nng_stream_dialer *dialer;
@@ -33,9 +35,12 @@ struct nng_http_client {
 static void
 http_dial_start(nni_http_client *c)
 {
-	if (nni_list_empty(&c->aios)) {
+	// One dial at a time: c->aio must not be submitted again before the
+	// callback of its previous completion has run.
+	if (c->dialing || nni_list_empty(&c->aios)) {
 		return;
 	}
+	c->dialing = true;
 	nng_stream_dialer_dial(c->dialer, &c->aio);
 }
 
@@ -49,7 +54,21 @@ http_dial_cb(void *arg)
 	nni_http_conn   *conn;
 
 	nni_mtx_lock(&c->mtx);
-	rv = nni_aio_result(&c->aio);
+	rv         = nni_aio_result(&c->aio);
+	c->dialing = false;
+
+	if (c->aborted) {
+		// This dial was for a request that has been cancelled; whoever
+		// is at the head now came later and gets a dial of its own.
+		c->aborted = false;
+		if (rv == 0) {
+			stream = nni_aio_get_output(&c->aio, 0);
+			nng_stream_free(stream);
+		}
+		http_dial_start(c);
+		nni_mtx_unlock(&c->mtx);
+		return;
+	}
 
 	if ((aio = nni_list_first(&c->aios)) == NULL) {
 		// User abandoned request, and no residuals left.
@@ -179,8 +198,12 @@ http_dial_cancel(nni_aio *aio, void *arg, nng_err rv)
 {
 	nni_http_client *c = arg;
 	nni_mtx_lock(&c->mtx);
-	nni_aio_abort(&c->aio, rv);
 	if (nni_aio_list_active(aio)) {
+		// Only the request at the head has a dial in flight.
+		if ((nni_list_first(&c->aios) == aio) && c->dialing) {
+			c->aborted = true;
+			nni_aio_abort(&c->aio, rv);
+		}
 		nni_aio_list_remove(aio);
 		nni_aio_finish_error(aio, rv);
 	}
